@@ -25,6 +25,7 @@ import AdaptixProofs.Lemmas.MorphProvLoad
 import AdaptixProofs.Lemmas.MorphProvDump
 import AdaptixProofs.Lemmas.MorphProvAlloc
 import AdaptixProofs.Lemmas.MorphProvLit
+import AdaptixProofs.Lemmas.MorphProvExamples
 
 namespace Adaptix.Morph.C20
 
@@ -272,24 +273,6 @@ theorem dump_then_load_disjoint (W W' : World) (DW : DumpWorld) (cfg cfg' : Cfg)
 
 section Examples
 
-/-- a model class `A` with two optional list fields and no leaf scalars -/
-def exW : World :=
-  { classes := fun c =>
-      if c = "A" then
-        some [ { name := "xs", ty := .iter .list true .any, required := false,
-                 default := .list [.float (.inf false)] },
-               { name := "ys", ty := .iter .list true .any, required := false,
-                 default := .list [] } ]
-      else none,
-    scalarLoad := fun _ _ d => .ok d,
-    scalarDump := fun _ d => .ok d }
-
-def exCfg : Cfg := { trail := .first, strict := true }
-
-/-- `xs: list = [float('inf')]` cannot be rendered as a literal and is captured (`dfl_xs`);
-    `ys`' default is rendered inline as `[]` -/
-def exDp : String → String → Prov := fun c f => if c = "A" ∧ f = "xs" then .const else .fresh
-
 /-- default given by a captured constant: the list in the loaded model belongs to the retort;
     default given inline / by factory: a new list -/
 example :
@@ -330,9 +313,6 @@ example :
             [ .node .const (.str "xs") [], .node .fresh .list [.node .arg .list []],
               .node .const (.str "ys") [], .node .fresh .list [] ]) := by
   rfl
-
-/-- a world without scalar leaves -/
-def exW0 : World := { exW with scalarLoad := fun _ _ _ => .escape "no scalars" }
 
 /-- the hypotheses of `load_mutable_arg_only_under_any` are satisfiable and its second disjunct
     is inhabited: in `list[Any]` the inner (mutable, `arg`) list lies under the `Any` position -/
